@@ -185,7 +185,7 @@ def universe_src(u, spell=0):
     L = ["from dataclasses import dataclass, field",
          "from enum import Enum",
          "from typing import *",
-         "from apischema import alias, schema, dependent_required, order, serialized, Undefined, UndefinedType",
+         "from apischema import alias, schema, dependent_required, order, serialized, Undefined, UndefinedType, type_name",
          "from apischema.metadata import fall_back_on_default, skip, none_as_undefined",
          "from apischema.fields import with_fields_set",
          "NoneType = type(None)",
@@ -281,6 +281,14 @@ def universe_src(u, spell=0):
             if c.get("depreq"):
                 dr = "{" + ", ".join(f"{k!r}: {list(v)!r}" for k, v in c["depreq"]) + "}"
                 L.append(f"dependent_required({dr}, owner=C{cid})")
+        tn = c.get("type_name")
+        if tn:
+            if tn[0] == "str":
+                L.append(f"type_name({tn[1]!r})(C{cid})")
+            elif tn[0] == "none":
+                L.append(f"type_name(None)(C{cid})")
+            elif tn[0] == "factory":
+                L.append(f"type_name(lambda tp, *args: {tn[1]!r} + tp.__name__)(C{cid})")
         L.append("")
     return "\n".join(L)
 
